@@ -203,6 +203,45 @@ func checkC15(p *Prog, r *Report) {
 	})
 	r.Check("R4", FnName(publish)+"|copy-under-lock", okCopy, p.Pos(publish.Pos()), "the handler list is copied while the bus lock is held")
 
+	// R7: handlers run under the handling lock and may subscribe/unsubscribe (which takes the list lock), so the
+	// list lock must never be held while the handling lock is being acquired (otherwise: publisher 2 holds the list
+	// lock and waits for the handling lock; the handler running under publisher 1 waits for the list lock)
+	r.Rule("R7", "the lock guarding the handler list is not held at any acquisition of a lock that is held while handlers are invoked (handlers may subscribe and unsubscribe; a waiting publisher holding the list lock would deadlock with them)")
+	handling := map[string]bool{}
+	forEachCall(publish, func(site ssa.CallInstruction) {
+		if calleeIsIfaceMethod(site.Common(), ehi, "HandleEvent") {
+			for lp := range ls.At(site.(ssa.Instruction)) {
+				handling[lastComp(lp)] = true
+			}
+		}
+	})
+	nAcq := 0
+	for _, fn := range p.RepoFns("spine") {
+		if fn.Signature.Recv() == nil || namedOf(fn.Signature.Recv().Type()) == nil || namedOf(fn.Signature.Recv().Type()) != namedOf(publish.Signature.Recv().Type()) {
+			continue
+		}
+		forEachCall(fn, func(site ssa.CallInstruction) {
+			op, mu := lockCall(site.Common())
+			if op != "Lock" && op != "RLock" {
+				return
+			}
+			name := lastComp(Path(mu))
+			if !handling[name] {
+				return
+			}
+			nAcq++
+			held := false
+			for lp := range ls.At(site.(ssa.Instruction)) {
+				if lastComp(lp) == guardLock {
+					held = true
+				}
+			}
+			r.Check("R7", fmt.Sprintf("%s|acquire:%s#%d", FnName(fn), name, nAcq), !held && guardLock != "", p.InstrPos(site), fmt.Sprintf("locks held when %s is acquired: %s", name, ls.At(site.(ssa.Instruction))))
+		})
+	}
+	if nAcq == 0 {
+		r.Undecided("R7", "floor:acquisitions of the handling lock", "", fmt.Sprintf("no acquisition of a lock held during handler invocation found (handling locks: %v)", sortedKeys(handling)))
+	}
 	r.Rule("R5", "no handler type subscribed at core level can synchronously reach Publish (the handle lock is held while core handlers run)")
 	nCoreSubs := 0
 	for _, fn := range p.RepoFns("spine") {
